@@ -93,6 +93,7 @@ def run(chk, repo, tier):
     C04b.theta_cursor(chk, P12, repo)
     C04b.run_p13_p15(chk, repo)
     C04b.run_p16(chk, repo)
+    C04b.run_p17_p18(chk, repo)
 
     tm = repo.module(f'{NM}.records.theta_record')
     om = repo.module(f'{NM}.records.omega_record')
